@@ -12,8 +12,9 @@ import numpy as np
 from vf import tlc as tlcmod
 from vf.core import quiet
 
-CFG = 'CONSTANTS Kind = "%s"\nNSteps = %d\nVaryParams = %s\nSPECIFICATION Spec\n'
-LAWS = "INVARIANT WienerClosed\nINVARIANT OUClosed\nINVARIANT OUCross\nINVARIANT IWPVelocity\nINVARIANT IWPClosed\nINVARIANT NonNegative\n"
+CFG = 'CONSTANTS Kind = "%s"\nNSteps = %d\nVaryParams = %s\nStationary = FALSE\nSPECIFICATION Spec\n'
+SCFG = 'CONSTANTS Kind = "ou"\nNSteps = %d\nVaryParams = %s\nStationary = TRUE\nSPECIFICATION Spec\n'
+LAWS = "INVARIANT WienerClosed\nINVARIANT OUClosed\nINVARIANT OUStationary\nINVARIANT OUCross\nINVARIANT IWPVelocity\nINVARIANT IWPClosed\nINVARIANT NonNegative\n"
 
 
 def q(v):
@@ -58,6 +59,8 @@ def paths(jenv, inst, variant):
             return lambda xi, x0: (gm.WienerProcess(float(x0[0]), sg, (float(dt[0]) if uniform and scal else jnp.asarray(dt)), name="w", N_steps=n)({"w": xi[:, 0]}))[:, None]
         if variant == "generic":
             return lambda xi, x0: gm.discrete_gauss_markov_process(xi, x0, jnp.ones((n, 1, 1)), jnp.asarray(sig * np.sqrt(dt))[:, None, None])
+        if variant == "generic-constdrift":
+            return lambda xi, x0: gm.discrete_gauss_markov_process(xi, x0, jnp.ones((1, 1)), jnp.asarray(sig * np.sqrt(dt))[:, None, None])
     if kind == "ou":
         gam = -np.log(rho) / dt
         gg = float(gam[0]) if scal and uniform else jnp.asarray(gam)
@@ -70,6 +73,10 @@ def paths(jenv, inst, variant):
                 {"o": xi[:, 0], "x0": x0[0]}))[:, None]
         if variant == "generic":
             return lambda xi, x0: gm.discrete_gauss_markov_process(xi, x0, jnp.asarray(rho)[:, None, None], jnp.asarray(sig * np.sqrt(1 - rho ** 2))[:, None, None])
+        if variant == "generic-constdrift" and len(set(rho.tolist())) == 1:
+            return lambda xi, x0: gm.discrete_gauss_markov_process(xi, x0, float(rho[0]), jnp.asarray(sig * np.sqrt(1 - rho ** 2))[:, None, None])
+        if variant == "generic-constamp" and const:
+            return lambda xi, x0: gm.discrete_gauss_markov_process(xi, x0, jnp.asarray(rho)[:, None, None], float(sig[0] * np.sqrt(1 - rho[0] ** 2)))
     if kind == "iwp":
         aa = float(asp[0]) if scal else jnp.asarray(asp)
         if variant.startswith("fn"):
@@ -77,13 +84,21 @@ def paths(jenv, inst, variant):
         if variant.startswith("model"):
             return lambda xi, x0: gm.IntegratedWienerProcess(gm.Model(lambda x: x["x0"], domain={"x0": jft.ShapeWithDtype((2,))}), sg, (float(dt[0]) if scal and uniform else jnp.asarray(dt)),
                                                              name="i", asperity=aa, N_steps=n)({"i": xi, "x0": x0})
-        if variant == "generic":
+        if variant.startswith("generic"):
             Fs = np.array([[[1., d], [0., 1.]] for d in dt])
             Ls = []
             for d, s, a in zip(dt, sig, asp):
                 Q = s ** 2 * np.array([[d ** 3 / 3 + a * d, d ** 2 / 2], [d ** 2 / 2, d]])
                 Ls.append(np.linalg.cholesky(Q))
-            return lambda xi, x0: gm.discrete_gauss_markov_process(xi, x0, jnp.asarray(Fs), jnp.asarray(np.array(Ls)))
+            if variant == "generic":
+                return lambda xi, x0: gm.discrete_gauss_markov_process(xi, x0, jnp.asarray(Fs), jnp.asarray(np.array(Ls)))
+            if variant == "generic-constdrift" and uniform:      # one drift matrix for all steps, a diffusion matrix per step
+                return lambda xi, x0: gm.discrete_gauss_markov_process(xi, x0, jnp.asarray(Fs[0]), jnp.asarray(np.array(Ls)))
+            if variant == "generic-constamp" and uniform and const:
+                return lambda xi, x0: gm.discrete_gauss_markov_process(xi, x0, jnp.asarray(Fs), jnp.asarray(Ls[0]))
+            if variant == "generic-constboth" and uniform and const:
+                return lambda xi, x0: gm.discrete_gauss_markov_process(xi, x0, jnp.asarray(Fs[0]), jnp.asarray(Ls[0]))
+            return None
     return None
 
 
@@ -92,7 +107,9 @@ def check_instance(jenv, inst):
     out = []
     C, P, D = expected(inst)
     n = len(inst["steps"])
-    for variant in ("fn", "fn-scalar", "model", "model-scalar", "generic"):
+    if inst.get("stationary"):
+        return check_stationary(jenv, inst, C)
+    for variant in ("fn", "fn-scalar", "model", "model-scalar", "generic", "generic-constdrift", "generic-constamp", "generic-constboth"):
         try:
             f = paths(jenv, inst, variant)
             if f is None:
@@ -127,6 +144,36 @@ def check_instance(jenv, inst):
                     out.append("%s: response to the initial state component %d is %s, expected %s" % (variant, c, r.ravel().tolist(), P[:, :, c].ravel().tolist()))
         except Exception as e:
             out.append("%s: raised %s: %s" % (variant, type(e).__name__, str(e)[:140]))
+    return out
+
+
+def check_stationary(jenv, inst, C):
+    """OrnsteinUhlenbeckProcess without an initial state: x_0 = xi_0 sigma_0 is part of the excitations"""
+    jax, jnp, jft, gm = jenv
+    out = []
+    st = inst["steps"]
+    n = len(st)
+    dt = np.array([q(s["dt"]) for s in st])
+    sig = np.sqrt(np.array([q(s["s2"]) for s in st]))
+    rho = np.array([q(s["rho"]) for s in st])
+    gam = -np.log(rho) / dt
+    const = len(set(sig.tolist())) == 1
+    for variant in ("array", "scalar"):
+        if variant == "scalar" and not const:
+            continue
+        try:
+            m = gm.OrnsteinUhlenbeckProcess(float(sig[0]) if variant == "scalar" else jnp.asarray(sig), jnp.asarray(gam), jnp.asarray(dt), name="o")
+            L = np.zeros((n + 1, n + 1))
+            for i in range(n + 1):
+                e = np.zeros(n + 1)
+                e[i] = 1.
+                L[:, i] = np.asarray(m({"o": jnp.asarray(e[1:]), "o_x0": jnp.asarray(e[0])}), dtype=float)
+            got = L @ L.T
+            if not np.allclose(got, C, atol=1e-10):
+                i, j = np.unravel_index(np.argmax(np.abs(got - C)), C.shape)
+                out.append("model without initial state (%s sigma): Cov(x_%d, x_%d) = %.12g, the process started in the steady state of its first step has %.12g" % (variant, i, j, got[i, j], C[i, j]))
+        except Exception as e:
+            out.append("model without initial state (%s sigma): raised %s: %s" % (variant, type(e).__name__, str(e)[:140]))
     return out
 
 
@@ -167,12 +214,15 @@ def run(ctx):
         s = ctx.tlc("GaussMarkov", CFG % (kind, n, "TRUE") + "INVARIANT Emit\nCHECK_DEADLOCK FALSE\n", label="simulate %s time-varying" % kind, workers=1,
                     simulate=(40 if q_ else 400), depth=n + 1, seed=ctx.seed + 29, timeout=1500)
         insts += e.emitted + s.emitted
+    ctx.tlc("GaussMarkov", SCFG % (3, "TRUE") + LAWS + "CHECK_DEADLOCK FALSE\n", label="ou steady-state start, laws", timeout=2500)
+    e = ctx.tlc("GaussMarkov", SCFG % (2, "TRUE") + "INVARIANT Emit\nCHECK_DEADLOCK FALSE\n", label="emit ou steady-state start", workers=1, timeout=1500)
+    insts += e.emitted
     if len(insts) < 100:
         raise tlcmod.MachineryError("too few instances: %d" % len(insts))
     seen = set()
     todo = []
     for inst in insts:
-        key = json.dumps([inst["kind"], inst["steps"]], sort_keys=True)
+        key = json.dumps([inst["kind"], inst.get("stationary"), inst["steps"]], sort_keys=True)
         if key not in seen:
             seen.add(key)
             todo.append(inst)
